@@ -44,6 +44,8 @@ KERNEL_PAIRS = [
 
 def run(facts, rep, tier):
     F = facts["default"]
+    from engines import eqop
+    eqop(F, rep, ('src/frontend/typechecker/const_eval.rs', 'src/backend/ir/emit/consts.rs', 'src/backend/ir/emit/decls.rs', 'crates/incan_core/src/strings.rs', 'crates/incan_stdlib/src/frozen.rs', 'crates/incan_stdlib/src/strings.rs'))
     R = facts.get("stdlib_web") or F
     rep.assumptions += ["rustc nightly MIR and is_const_fn describe the program the stable toolchain builds"]
     sharedkernel(F, rep)
